@@ -20,7 +20,8 @@ UpgradeActs == DOMAIN FactorOfAct
 CredOf(e) == [cert |-> e.args.cred.cert, slot |-> e.args.cred.slot]
 ObsCookie(e, s) == [u |-> e.post.cookie[s].u, lvl |-> SeqToSet(e.post.cookie[s].lvl)]
 Truth(e) == {<<e.truth[i][1], e.truth[i][2]>> : i \in DOMAIN e.truth} \cup
-            (IF e.ev \in CredActs /\ e.args.cred.cert # None THEN {<<e.args.cred.cert, "kmx509">>} ELSE {})
+            (IF e.ev \in CredActs /\ e.args.cred.cert # None
+             THEN {<<e.args.cred.cert, IF "certkind" \in DOMAIN e.args.cred /\ e.args.cred.certkind = "ip" THEN "ipcert" ELSE "kmx509">>} ELSE {})
 Ok2xx(e) == e.out.class = "2xx"
 
 \* did the response hand out a session cookie carrying factor f ?
